@@ -113,7 +113,8 @@ def omitted_ts_owned_clock(acc):
         class FakeDT(real):
             @classmethod
             def now(cls, tz=None):
-                return at
+                # like the real now(): an instance of the class it is called on
+                return cls(at.year, at.month, at.day, at.hour, at.minute, at.second, at.microsecond)
         return FakeDT
 
     moments = [dt.datetime(2031, 12, 31, 23, 59, 30), dt.datetime(2032, 2, 29, 0, 0, 5), dt.datetime(2027, 4, 30, 12, 0)]
@@ -144,7 +145,8 @@ state = {"now": real(2031, 12, 31, 23, 58, 0)}
 class FakeDT(real):
     @classmethod
     def now(cls, tz=None):
-        return state["now"]
+        a = state["now"]                 # like the real now(): an instance of the class it is called on
+        return cls(a.year, a.month, a.day, a.hour, a.minute, a.second, a.microsecond)
 D.datetime = FakeDT                      # installed BEFORE the library is imported
 sys.path.insert(0, %(verif)r); sys.path.insert(0, %(repo)r)
 import logging; logging.disable(logging.CRITICAL)
